@@ -8,9 +8,9 @@ round-trip stream whose frames are rendered from the *extracted* Lua expressions
 by the real protobuf code.
 Oracle: (a) no op may panic, (b) the decoded tuple equals what was framed.
 Findings: C33-1…4 (slice-bounds panics on four narrow input shapes) are FIXED in /repo by e8dc9ebe — their replay
-ops stay in corpus.ops, a regression is a VIOLATION again (signature class "regression-…"); C33-6 (known, re-derived
-every run): the new guard `len(input) < prevPayloadLength+1` overflows for a declared length of MaxInt64 and the
-slice still panics; C33-5 (known, re-derived every run): list script + delta
+ops stay in corpus.ops, a regression is a VIOLATION again (signature class "regression-…"); C33-6 (the first guard
+`len(input) < prevPayloadLength+1` overflowed for a declared length of MaxInt64) is FIXED by efc5e395, its replay ops
+stay in corpus.ops too (signature class "prevLenMaxInt"); C33-5 (known, re-derived every run): list script + delta
 hands the framed list entry over as previous payload.
 """
 import json
@@ -76,8 +76,8 @@ def panic_class(data):
 
 
 def current_panic_class(data):
-    """The one shape on which the code after e8dc9ebe still panics: declared prev-payload length == MaxInt64
-    (`prevPayloadLength+1` wraps around in the guard)."""
+    """The shape of fixed finding C33-6: declared prev-payload length == MaxInt64 (`prevPayloadLength+1` wrapped
+    around in the first version of the guard; fixed by efc5e395).  Only used to classify a regression."""
     if not data.startswith(b"__d1:"):
         return None
     rest = data[5:]
@@ -307,7 +307,7 @@ def run(ctx):
         "necessity is proved by `decide`d examples",
         "a marshalled protobuf message never starts with '__' (0x5f = field 11, wire type 7)",
         "Lua `..`, `#` and redis.call(lindex/lpush) semantics are taken from the translated script text (no Lua VM in the sandbox)",
-        "panic_class / `cls` / `pre` ops concern the code before commit e8dc9ebe (history of findings C33-1…4)",
+        "panic_class / `cls` / `pre` ops concern the code before commits e8dc9ebe / efc5e395 (history of findings C33-1…4, C33-6)",
     ]
     try:
         fm = regen(ctx)
@@ -412,7 +412,7 @@ def run(ctx):
     mal = []
     for _ in range(ctx.scale(2500, 120000)):
         d = gen_malformed(ctx.rng)
-        mal += ["ext " + hx(d), "cls " + hx(d), "ovf " + hx(d)]
+        mal += ["ext " + hx(d), "cls " + hx(d)]
         if ctx.rng.random() < 0.5:
             mal.append("handle " + hx(d))
         if d.startswith(b"__d") and ctx.rng.random() < 0.7:
@@ -437,7 +437,7 @@ def run(ctx):
         b = model[i] if i < len(model) else "<missing>"
         kind = w[0]
         ctx.count("op:" + kind)
-        data = unhx(w[1]) if kind in ("ext", "pdp", "handle", "cls", "pre", "ovf") else b""
+        data = unhx(w[1]) if kind in ("ext", "pdp", "handle", "cls", "pre") else b""
         if kind in ("ext", "pdp", "handle"):
             ctx.record(op, nontrivial=data.startswith(b"__") or kind == "pdp")
             ctx.count(f"impl:{kind}:" + (a.split()[0] if a else "?"))
@@ -475,18 +475,14 @@ def run(ctx):
             a_cmp = "PANIC" if a == "PANIC" else ("<missing>" if a == "<missing>" else "nopanic")
         elif kind == "cls":
             a_cmp = "class=" + (panic_class(data) or "none")       # Python classifier vs Lean classifier (pre-fix shapes)
-        elif kind == "ovf":
-            a_cmp = "class=" + (current_panic_class(data) or "none")
         elif kind == "build":
             a_cmp = ex[2]
         elif kind == "pre":
-            # model of the code before e8dc9ebe: wherever it did not panic it equals today's implementation (outside the
-            # overflow shape); where it panicked (exactly the classified shapes) today's implementation reports ok=0
+            # model of the code before the fixes: wherever it did not panic it equals today's implementation; where it
+            # panicked (exactly the classified shapes) today's implementation reports malformed data (ok=0)
             ea = ext_result.get(w[1])
             if ea is None:
                 a_cmp = b
-            elif ea == "PANIC":
-                a_cmp = b if current_panic_class(data) else "impl-panic-unexplained"
             elif b == "PANIC":
                 a_cmp = "PANIC" if (panic_class(data) and ea.startswith("ok=0")) else "pre-fix-panic-not-explained"
             else:
